@@ -138,6 +138,14 @@ def builtin(I, n, args, kw, st, node):
         return None
     if n == "isinstance":
         raise ToolLimit("isinstance")
+    if n == "setattr":
+        # setattr(obj, "<constant name>", value) is the attribute store obj.<name> = value (frame checks included)
+        if len(args) != 3 or not isinstance(args[1], str) or not isinstance(node, ast.Call) or len(node.args) != 3:
+            raise ToolLimit("setattr with a non-constant attribute name")
+        tgt = ast.Attribute(value=node.args[0], attr=args[1], ctx=ast.Store())
+        ast.copy_location(tgt, node)
+        I.assign(tgt, args[2], st, node)
+        return None
     raise ToolLimit("builtin " + n)
 
 
